@@ -88,23 +88,20 @@ func (e *Encoder) writeMap(data interface{}) (int, error) {
 	// object data MUST not be unpacked
 	vv := reflect.ValueOf(data)
 
+	// nil and empty maps are written as null: they are not containers on the
+	// wire and must not take a reference number
+	if raw := UnpackPtrValue(vv); (raw.Kind() == reflect.Ptr && !raw.Elem().IsValid()) ||
+		(raw.Kind() == reflect.Map && raw.Len() == 0) {
+		e.writeBT(_nilTag)
+		return 0, nil
+	}
+
 	// check ref
 	if n, ok := e.checkEncodeRefMap(vv); ok {
 		return e.writeRef(n)
 	}
 
 	vv = UnpackPtrValue(vv)
-	// check nil map
-	if vv.Kind() == reflect.Ptr && !vv.Elem().IsValid() {
-		e.writeBT(_nilTag)
-		return 0, nil
-	}
-
-	keys := vv.MapKeys()
-	if len(keys) == 0 {
-		e.writeBT(_nilTag)
-		return 0, nil
-	}
 
 	typ := vv.Type()
 
